@@ -60,6 +60,37 @@ Proof.
   destruct k1, k2; try discriminate; try (exfalso; apply Hk; reflexivity); name_neq.
 Qed.
 
+(* the names as main.go configures the package variables are [cookie_name] *)
+Lemma main_cnames_spec c k : cname_of (main_cnames c) k = cookie_name c k.
+Proof.
+  unfold main_cnames, main_cnames_with, cookie_name. destruct (beq (cf_prefix c) default_prefix) eqn:E.
+  - apply beq_eq in E. rewrite E. destruct (cf_sso_server c), k; reflexivity.
+  - destruct (cf_sso_server c), k; reflexivity.
+Qed.
+
+(* every mode, every prefix, every session-cookie name: all six names are pairwise different - in SSO mode provided the
+   operator did not choose one of wonderwall's two fixed names (the login counter's, the legacy cookie's) as
+   sso.session-cookie-name *)
+Lemma names_distinct_all c k1 k2 :
+  (cf_sso_server c = true ->
+   cf_sso_name c <> with_prefix default_prefix n_logincount /\ cf_sso_name c <> n_legacy) ->
+  k1 <> k2 -> cookie_name c k1 <> cookie_name c k2.
+Proof.
+  intros Hn Hk. destruct (cf_sso_server c) eqn:Hs; [|now apply names_distinct_standalone].
+  destruct (Hn eq_refl) as [H1 H2]. unfold cookie_name. rewrite Hs.
+  destruct k1, k2; try (exfalso; apply Hk; reflexivity);
+    first [ exact H1 | exact H2 | (intros E; apply H1; now symmetry) | (intros E; apply H2; now symmetry) | name_neq ].
+Qed.
+
+(* the slip: with a non-default prefix (or in SSO mode) counter and login cookie get the same name *)
+Lemma slip_names_collide c :
+  cf_sso_server c = true \/ cf_prefix c <> default_prefix ->
+  nm_logincount (main_cnames_with configure_cnames_slip c) = nm_login (main_cnames_with configure_cnames_slip c).
+Proof.
+  intros H. unfold main_cnames_with. destruct (cf_sso_server c) eqn:Hs; [reflexivity|].
+  destruct H as [H|H]; [discriminate|]. apply beq_neq in H. rewrite H. reflexivity.
+Qed.
+
 (* ------------------------------------------------------------------ the responses are made of call sites *)
 
 Definition from_site (c : kconfig) (mp : bytes) (sc : setcookie) : Prop := exists s v m, sc = site_emit c mp s v m.
